@@ -254,46 +254,47 @@ def stereo_mol_graph_to_rdmol(
             #rd_atom.SetHybridization(Chem.HybridizationType.SP3D)
             rd_atom.SetChiralTag(Chem.ChiralType.CHI_TRIGONALBIPYRAMIDAL)
             if a_stereo.parity is not None:
-
-                atoms_order = (a_stereo._inverted_atoms()
-                               if a_stereo.parity == -1 else a_stereo.atoms)
-                rd_id_order = tuple([map_num_idx_dict[a]
-                                     for a in atoms_order[1::]])
-                rd_nbr_order = tuple([nbr.GetIdx() for nbr in rd_atom.GetNeighbors()])
-                
-                        # adapted from http://opensmiles.org/opensmiles.html
-                atom_order_permutation_dict = {
-                (0, 1, 2, 3, 4): 1,
-                (0, 1, 3, 2, 4): 2,
-                (0, 1, 2, 4, 3): 3,
-                (0, 1, 4, 2, 3): 4,
-                (0, 1, 3, 4, 2): 5,
-                (0, 1, 4, 3, 2): 6,
-                (0, 2, 3, 4, 1): 7,
-                (0, 2, 4, 3, 1): 8,
-                (1, 0, 2, 3, 4): 9,
-                (1, 0, 3, 2, 4): 11,
-                (1, 0, 2, 4, 3): 10,
-                (1, 0, 4, 2, 3): 12,
-                (1, 0, 3, 4, 2): 13,
-                (1, 0, 4, 3, 2): 14,
-                (2, 0, 1, 3, 4): 15,
-                (2, 0, 1, 4, 3): 16,
-                (3, 0, 1, 2, 4): 17,
-                (3, 0, 2, 1, 4): 18,
-                (2, 0, 4, 1, 3): 19,
-                (2, 0, 3, 1, 4): 20,
+                rd_nbrs = tuple(
+                    [
+                        idx_map_num_dict[nbr.GetIdx()]
+                        for nbr in rd_atom.GetNeighbors()
+                    ]
+                )
+                # label: (axial, axial, equatorial x3) as indices into the
+                # neighbor order giving parity 1; same table as the importer
+                # (http://opensmiles.org/opensmiles.html)
+                tbp_label_order = {
+                    1: (4, 0, 1, 2, 3),
+                    2: (0, 4, 1, 2, 3),
+                    3: (3, 0, 1, 2, 4),
+                    4: (0, 3, 1, 2, 4),
+                    5: (2, 0, 1, 3, 4),
+                    6: (0, 2, 1, 3, 4),
+                    7: (1, 0, 2, 3, 4),
+                    8: (0, 1, 2, 3, 4),
+                    9: (4, 1, 0, 2, 3),
+                    11: (1, 4, 0, 2, 3),
+                    10: (3, 1, 0, 2, 4),
+                    12: (1, 3, 0, 2, 4),
+                    13: (2, 1, 0, 3, 4),
+                    14: (1, 2, 0, 3, 4),
+                    15: (4, 2, 0, 1, 3),
+                    20: (2, 4, 0, 1, 3),
+                    16: (3, 2, 0, 1, 4),
+                    19: (2, 3, 0, 1, 4),
+                    17: (4, 3, 0, 1, 2),
+                    18: (3, 4, 0, 1, 2),
                 }
-
-                for perm, val in atom_order_permutation_dict.items():
-
-                    rd_nbr_perm = tuple([rd_nbr_order[i] for i in perm])
-                    rd_nbr_perm = tuple([rd_nbr_perm[i] for i in (0, 4, 1, 2, 3)])
-
-                    if rd_id_order == rd_nbr_perm:
-                        rd_atom.SetUnsignedProp("_chiralPermutation", val)
-                        break
-
+                if len(rd_nbrs) == 5:
+                    for label, order in tbp_label_order.items():
+                        candidate = TrigonalBipyramidal(
+                            (atom, *[rd_nbrs[i] for i in order]), 1
+                        )
+                        if candidate == a_stereo:
+                            rd_atom.SetUnsignedProp(
+                                "_chiralPermutation", label
+                            )
+                            break
 
         elif a_stereo is not None and isinstance(a_stereo, Octahedral):
             for rd_n in rd_atom.GetNeighbors():
